@@ -17,7 +17,7 @@ def synthMatcher (req : List String) (pvals : List String) : MVal :=
   match sel with
   | "T" => .bool true | "F" => .bool false
   | "f1" => .float true | "f0" => .float false
-  | "i1" => .other true | "i0" => .other false
+  | "i1" => .float true | "i0" => .float false      -- an int is numeric (`isinstance(result, (int, float))`)
   | "s" => .other true | "se" => .other false | "none" => .other false
   | _ => .bool (rk == pk)
 
